@@ -46,9 +46,9 @@ CHECKS = {
  "C11": dict(cat="model_checking", tech=TLA + ": stepper model with max_step/first_step/max_steps; trace validation of recorded runs incl. budget prefixes",
    text="C11 contract operators (spec/stepper/StepperContract.tla): every accepted step <= max_step (final step <= 1.01 max_step), first trial evaluation at x0 + c2*first_step, first reported interval = first_step if accepted, nstep <= max_steps+1, NeedLargerNMax iff the budget ran out, budgeted run = bit-identical prefix of the unbudgeted run. TLC checks the bounded stepper model and validates recorded runs of the real solvers (marks xold +/- max_step inserted into the ranked time set).",
    note="Marks and 4-ulp windows are computed by the recorder (trusted).", ref="5 (C11)"),
- "C12": dict(cat="model_checking", tech=TLA + ": non-interference as self-composition on the model; relational trace validation (observer mode) of recorded run families",
-   text="Two copies of the stepper sharing the oracle with different observer options must stay equal (TLC, bounded model); on the real code, for every case the plain run and the runs with every non-empty subset of {t_eval, dense_output, non-terminal events} plus a repeat are recorded and TLC checks token equality of the complete ode stream, accepted-step sequence, final state and counters.",
-   note="Bit-identity is meaningful because one thread, deterministic arithmetic.", ref="5 (C12)"),
+ "C12": dict(cat="model_checking", tech=TLA + ": relational trace validation (observer mode) of recorded run families against the Level-A contract; Level-B stepper model shows the loop never reads observer state",
+   text="Non-interference is a relational contract clause (spec/stepper/StepperContract.tla Rel_Observer / Rel_Equal / Rel_EqualCb): for every case the plain run and the runs with t_eval, dense_output, non-terminal events (all subsets in thorough), a repeat, t_eval placed next to accepted step ends, and low-level solvers built with dense_output on/off are recorded, and TLC checks token equality of the complete stepper evaluation stream (times and states), of every reported step state, and of nfev/njev/nstep/naccpt/nrejct. The Level-B model Stepper.tla has no variable through which the output handler could influence the loop other than the callback flag.",
+   note="Bit-identity is meaningful because one thread, deterministic arithmetic. No separate self-composition model was built (DESIGN.md 13).", ref="5 (C12), 13"),
  "C13": dict(cat="model_checking", tech=TLA + ": Tolerance aliasing model + relational trace validation under exact symmetries",
    text="Tolerance cell semantics and Radau's adjust loop are modelled (spec/stepper/Tolerance.tla: every component transformed exactly once for both representations); on the real code, pairs of runs related by time reflection, 2^k scaling, scalar-vs-vector tolerance and duplication into 2/4 copies are recorded, mapped through the inverse symmetry and required by TLC to be token-equal.",
    note="Only relations exact in IEEE arithmetic are checked (no 'up to rounding' relations).", ref="5 (C13)"),
